@@ -6,7 +6,7 @@ import (
 )
 
 //zzv:bound E1 = one control cycle from any controller state satisfying Inv (inductive step); curve value any int64; RPM average any float64; device PWM register any int; control loop in {direct, direct with limit 1..255, PID with arbitrary loop term}; fan limits 0<=min+offset<=max<=255
-//zzv:bound E2 = same cycle: at most one PWM write, and it is pwmMap[findClosestDistinctTarget(request)] as recomputed by the real lookup (nearest-ness of that lookup is C12 N1/N3); PWM map with 2 (thorough 1..6) distinct keys
+//zzv:bound E2 = same cycle: at most one PWM write, and it is pwmMap[findClosestDistinctTarget(request)] as recomputed by the real lookup (nearest-ness of that lookup is C12 N1/N3); PWM map with 2 (thorough 1..4) distinct keys
 //zzv:bound E3 = Inv re-established after the cycle, so the step composes to histories of any length
 //zzv:outside PWM maps with more distinct keys than the bound; control algorithms other than the three shipped ones; fans whose getters are not those of HwMonFan/FileFan/CmdFan
 //zzv:bound E0 = real PidControlLoop.Cycle for any target and current (int64), any gains, with the PID term util.PidLoop.Loop an arbitrary float64 (NaN/Inf included): the result is in 0..255 or MinInt64 (NaN on amd64); every other controller harness uses this summary for the PID algorithm
